@@ -72,6 +72,7 @@ fn main() {
         "unify" => unify::main(&args),
         "solve" => solve::main(&args),
         "gopp" => gopp::main(&args),
+        "namecat" => namecat::main(&args),
         "probe" => probe::main(&args),
         "stages" => probe::stages(&args),
         "golden" => probe::golden(&args),
